@@ -95,6 +95,7 @@ int SZ_Init_Params(sz_params *params)
 	{
 		updateQuantizationInfo(params->quantization_intervals);
 		confparams_cpr->max_quant_intervals = params->quantization_intervals;
+		confparams_cpr->maxRangeRadius = params->quantization_intervals/2;
 		exe_params->optQuantMode = 0;
 	}
 	else
